@@ -123,6 +123,10 @@ def describe(case):
         if sub and depth >= 3:
             sname, k, sref, scard = sub[case['si'] % len(sub)]
             d.update(sname=sname, k=k, leaf_dt=lit.first_leaf_dt(T, v, sref), withdrawn=d['withdrawn'] or scard[1] == 0)
+    if not ch and T.ref_dt(fref) == 'varies' and depth >= 2 and i is not None:
+        # a field of varying type has no table of components: they are addressed by position (VARIES_<j>, <field>_<j>)
+        j = case['ci'] % 4 + 1
+        d.update(cname='VARIES_%d' % j, j=j, cref=('leaf', None, None, None, None, -1), leaf_dt='ST', varies=True)
     last_ref = d.get('cref', fref) if d['cname'] else fref
     if not d['sname'] and first_chain_withdrawn(v, last_ref):
         d['withdrawn'] = True
@@ -314,7 +318,7 @@ def check(case, acc=None):
                 ref_el = P.parse_message(exp, validation_level=level, find_groups=True)
             else:
                 ref_el = P.parse_segment(exp, version=v, validation_level=level)
-            if listing(root) != listing(ref_el):
+            if listing(root) != listing(ref_el) and not d.get('varies'):    # (the parser also builds the empty components before a varies one)
                 out.append(('C11-write-created-other-elements', 'path %s how=%d: listing %r, parsing %r gives %r' % (
                     _path(case, d), how, listing(root), exp, listing(ref_el))))
         if 'segment' in ids_before and id(seg_proxy_or_el()[0]) != ids_before['segment']:
